@@ -6,6 +6,10 @@ Actor: models.line_state.LineState plays (line_state, duration) segments, VBUS /
 bus_busy changes, and "hold until the device shows <event>" ops so that host chirps and glitches can be placed at exact
 offsets from the end of the device chirp.
 
+Every 5th run is a multi-episode history (several resets / handshakes / suspends chained in one run, the later episodes differing
+from the earlier ones: fewer chirp pairs, another speed at suspend entry, another way out of the suspend), so that every entry into HS
+operation has to be justified by its own episode.
+
 Oracle: interval arithmetic over the *input* history (what the actor actually drove) and the device's output change log:
   operating at HS  := current_speed == HIGH and operating_mode == NORMAL and termination_select == 0
   chirp mode       := operating_mode == CHIRP (device chirp K = tx.valid while in chirp mode)
@@ -21,7 +25,9 @@ PROPERTY = "C19"
 ENGINE = "usb2_reset"
 CLOCK_HZ = 60e6
 RULES = {
-    "C19.hs_only_after_handshake": "HS operation begins only after bus reset -> device chirp -> >= 3 host K-J pairs with every state >= 150 cycles, or on resume from a suspend entered at HS",
+    "C19.hs_only_after_handshake": "every entry into HS operation is justified by its own episode: the exit of a suspend that was entered at HS, or the "
+                                   "most recent reported bus reset -> device chirp -> >= 3 host K-J pairs (every state >= 150 cycles) counted in the input "
+                                   "since THAT chirp ended, with no earlier HS operation, suspend or newer reset between that chirp and the entry",
     "C19.no_chirp_when_restricted": "chirp mode is never entered while low/full-speed-only has been asserted since before the reset was reported",
     "C19.leave_hs_on_restrict": "HS operation and a speed restriction never coexist for more than 2 consecutive cycles",
     "C19.fallback_when_no_host_chirp": "if no complete host chirp arrives within 2.5 ms (150 000 cycles) of the end of the device chirp, the device shows FS/LS normal mode (or HS) within 600 further cycles",
@@ -31,21 +37,36 @@ RULES = {
 PROBES = ["hs_reached", "hs_resume_from_suspend", "fallback_timeout_reached", "host_chirp_at_deadline", "short_chirp_state",
           "two_pairs_only", "glitched_chirp", "restrict_during_hs", "restrict_during_hs_detect_window", "restrict_mid_handshake",
           "hs_suspend", "hs_reset", "fs_suspend", "reset_from_suspend", "reset_fs_active", "se0_just_too_short",
-          "idle_just_too_short", "vbus_loss", "soft_disconnect", "bus_busy_stall", "low_speed"]
+          "idle_just_too_short", "vbus_loss", "soft_disconnect", "bus_busy_stall", "low_speed",
+          # multi-episode histories: a later episode of the same run that differs from an earlier one
+          "later_handshake", "later_handshake_fewer_pairs", "hs_after_later_handshake", "later_suspend", "suspend_speed_change",
+          "hs_suspend_left_by_reset", "fs_resume_after_hs_suspend"]
 META = {
     "components_real": ["USBResetSequencer"],
     "components_stubbed": ["UTMI PHY line_state / VBUS, host signalling, strap inputs (models.line_state.LineState)"],
     "assumptions": ["line_state, VBUS and the strap inputs are synchronous to the 60 MHz clock",
                     "the three-pairs requirement is read as: after the device chirp the input contains K>=150, later J>=150, three times "
                     "(runs may be separated by anything); the DUT is stricter",
+                    "'only after a bus reset in which it has driven its chirp K and then observed three pairs' is evaluated per episode: the "
+                    "justifying handshake must belong to the most recent reset (a handshake that already led to HS operation, or that was followed "
+                    "by a suspend or by a newer reset without a device chirp, justifies nothing later); 'a suspend entered at high speed' means the "
+                    "device operated at HS until the 3 ms + 200 us suspend detection that raised `suspended`",
                     "'3 ms SE0 followed by 200 us of non-idle' is read weakly: non-idle when the reset is reported",
                     "'leaves high speed within two cycles' is read as: HS operation and restriction coexist for at most 2 consecutive cycles"],
     "rule": "one template per run (FS/LS reset bursts around 150/300 cycles; full HS handshake with good / short / two-pair / glitched / "
             "missing / at-the-deadline host chirps; HS suspend-or-reset after 3 ms SE0; FS suspend after 3 ms idle; resume / reset from "
-            "suspend) with VBUS loss, soft disconnect, bus_busy stalls and speed-restriction toggles placed at random and at targeted points",
+            "suspend) with VBUS loss, soft disconnect, bus_busy stalls and speed-restriction toggles placed at random and at targeted points. "
+            "Every 5th run (by index) is a multi-episode history instead: a first reset + handshake, then a chain of further episodes chosen from "
+            "the intended device state within a cycle budget (HS: reset after 3 ms SE0 / suspend / VBUS bounce / restriction pulse; suspended: "
+            "resume / reset with or without a speed restriction / VBUS bounce; FS: reset + handshake / 3 ms idle suspend / traffic), each later "
+            "handshake answered independently (good, one pair, two pairs, short, glitched, nothing). Goals are stratified by the run index, not "
+            "the seed: 'suspend2' (two suspends; the ways the first is left {restricted reset, reset + handshake, resume} x the second is left "
+            "{resume, reset} all occur), 'handshake2' (a second handshake reached via HS reset / HS suspend + reset / any route, mostly with "
+            "fewer than three pairs), 'free' (unbiased chain; thorough tier budgets up to 1.3 M cycles allow a failed handshake between two "
+            "suspends)",
 }
-TIERS = {"quick": {"runs": 200, "wall": 75, "chunk": 2, "shrink_budget": 32},
-         "thorough": {"runs": 3600, "wall": 900, "chunk": 4, "shrink_budget": 64}}
+TIERS = {"quick": {"runs": 230, "wall": 75, "chunk": 2, "shrink_budget": 32},
+         "thorough": {"runs": 2800, "wall": 900, "chunk": 4, "shrink_budget": 64}}
 
 HIGH, FULL, LOW = 0, 1, 2
 T_2P5US, T_5US, T_200US, T_2MS, T_2P5MS, T_3MS = 150, 300, 12000, 120000, 150000, 180000
@@ -106,6 +127,11 @@ def _host_chirps(rng, ops, variant):
             ops.append(_seg(J_FS, state_len()))
         if rng.random() < 0.5:
             ops.append(_seg(K_FS, state_len()))
+    elif variant == "one_pair":
+        ops.append(_seg(K_FS, state_len()))
+        ops.append(_seg(J_FS, state_len()))
+        if rng.random() < 0.5:
+            ops.append(_seg(K_FS, state_len()))
     elif variant == "glitched":
         for i in range(3):
             for ls in (K_FS, J_FS):
@@ -118,7 +144,223 @@ def _host_chirps(rng, ops, variant):
     ops.append(_seg(SE0, rng.randint(20, 400)))
 
 
+# ---- multi-episode histories -------------------------------------------------------------------------------------
+# One run chains several reset / handshake / suspend episodes, so that every HS entry has to be justified by ITS OWN
+# episode.  The generator tracks only the *intended* device state (to keep the stimulus meaningful); the oracle never
+# uses it.  Costs are in cycles (the 2 ms device chirp, the 2.5 ms fallback, 3 ms + 200 us at HS, 3 ms FS idle).
+MULTI_EVERY = 5
+_COST_HANDSHAKE, _COST_FALLBACK, _COST_HS_3MS, _COST_FS_SUSP, _COST_CHEAP = 124000, 152000, 193000, 182000, 3000
+_BAD_VARIANTS = ("one_pair", "two_pairs", "short", "glitched", "none")
+# weights per goal: (handshake2, suspend2, free)
+_W = {
+    "HS": [("hs_reset", (6, 1, 3)), ("hs_suspend", (3, 10, 3)), ("vbus_bounce", (0.4, 0.4, 1)),
+           ("restrict_pulse", (0.4, 0.4, 1)), ("hs_life", (0.4, 0.4, 1))],
+    "SUSP_HS": [("resume", (2, 3, 3)), ("reset", (7, 6, 4))],
+    "FS": [("fs_reset", (7, 1.5, 3)), ("fs_suspend", (2, 8, 3)), ("fs_traffic", (0.5, 0.5, 1))],
+    "SUSP_FS": [("resume", (3, 7, 3)), ("reset", (6, 3, 3))],
+}
+_GOALS = ("handshake2", "suspend2", "free")
+
+
+def _wchoice(rng, pairs):
+    total = sum(w for _, w in pairs)
+    r = rng.random() * total
+    for name, w in pairs:
+        r -= w
+        if r < 0:
+            return name
+    return pairs[-1][0]
+
+
+def _multi_handshake(rng, ops, variant, start_ls=SE0, start_max=400):
+    """ device chirp (waited for), then the host response `variant`; returns the intended resulting state """
+    ops.append({"op": "until", "event": "chirp_start", "ls": start_ls, "max": start_max, "after": 0})
+    ops.append({"op": "until", "event": "chirp_end", "ls": rng.choice([K_FS, K_FS, SE0]), "max": 121000, "after": 0})
+    ops.append(_seg(rng.choice([SE0, J_FS, K_FS]), rng.randint(1, 3000)))
+    if variant == "none":
+        ops.append(_seg(rng.choice([SE0, J_FS]), rng.choice([2000, 20000])))
+    else:
+        _host_chirps(rng, ops, variant)
+    if variant == "good":
+        return "HS"
+    # the host gives up: wait until the device has left chirp mode (falls back at 2.5 ms; returns at once if it is at HS)
+    ops.append({"op": "until", "event": "settled", "ls": rng.choice([SE0, J_FS]), "max": T_2P5MS + 900, "after": rng.randint(5, 300)})
+    ops.append(_seg(J_FS, rng.randint(10, 300)))
+    return "FS"
+
+
+def _gen_multi(rng, tier, index):
+    k = index // MULTI_EVERY
+    quick = tier == "quick"
+    # stratified by the run index (not by the seed): the goal, and for the goal-directed runs the way the first episode is
+    # left and the second one ends, cycle through all combinations
+    if k % 2 == 0:
+        goal, j = "suspend2", k // 2
+        plan = {"susp1_exit": ("reset_restricted", "reset_handshake", "resume")[j % 3], "susp2_exit": ("resume", "reset")[(j // 3) % 2]}
+    elif k % 4 == 1:
+        goal, j = "handshake2", k // 4
+        plan = {"route": ("hs_reset", "hs_suspend", "any")[j % 3]}
+    else:
+        goal, plan = "free", {}
+    gi = _GOALS.index(goal)
+    budget = 645000 if quick else rng.choice([645000, 645000, 800000, 1000000, 1300000])
+    pins = {"vbus_connected": 1, "low_speed_only": 0, "full_speed_only": 0, "disconnect": 0, "bus_busy": 0}
+    faults_ok = rng.random() > 0.15
+    ops = [_seg(J_FS, rng.randint(4, 400))]
+    restricted = False
+    n_susp = 0
+    n_hs = 0
+
+    def variant_for(n):
+        if n == 0:
+            return "good" if (goal != "free" or rng.random() < 0.8) else rng.choice(_BAD_VARIANTS)
+        if goal == "handshake2":
+            v = _wchoice(rng, [("good", 3), ("one_pair", 2.5), ("two_pairs", 2), ("short", 1.5), ("glitched", 0.5), ("none", 0.5)])
+        else:
+            v = _wchoice(rng, [("good", 5), ("one_pair", 1), ("two_pairs", 1), ("short", 1), ("glitched", 1), ("none", 1)])
+        return "short" if (v == "glitched" and not faults_ok) else v
+
+    def hs_cost(v):
+        return _COST_HANDSHAKE + (0 if v == "good" else _COST_FALLBACK)
+
+    # episode 1: reset from full speed, handshake
+    v = variant_for(0)
+    ops.append(_seg(SE0, rng.randint(301, 900)))
+    state = _multi_handshake(rng, ops, v)
+    spent = hs_cost(v)
+    n_hs += 1
+    for _ in range(12):
+        if quick and ((goal == "handshake2" and n_hs >= 2) or (goal == "suspend2" and n_susp >= 2 and state in ("HS", "FS"))):
+            break                                   # quick tier: the planned second episode is complete
+        v = variant_for(n_hs)
+        if spent + hs_cost(v) > budget and state in ("SUSP_HS", "SUSP_FS"):
+            v = "good"                              # a failed handshake costs 2.5 ms more; keep within the budget
+        cost = {"hs_reset": _COST_HS_3MS + hs_cost(v), "hs_suspend": _COST_HS_3MS, "fs_suspend": _COST_FS_SUSP,
+                "fs_reset": hs_cost(v) if not restricted else _COST_CHEAP, "reset": hs_cost(v)}
+        opts = [(name, w[gi]) for name, w in _W[state]
+                if spent + cost.get(name, _COST_CHEAP) <= budget and (faults_ok or name not in ("vbus_bounce", "restrict_pulse"))]
+        if not any(cost.get(name, _COST_CHEAP) > _COST_CHEAP or name == "resume" for name, _ in opts):
+            break                                   # nothing but decoration fits any more
+        what = _wchoice(rng, opts)
+        # goal-directed overrides (only where the planned step is admissible in this state)
+        if goal == "handshake2" and state == "HS" and n_hs == 1 and plan["route"] != "any":
+            what = plan["route"]
+        if goal == "suspend2" and state == "HS" and n_susp == 0:
+            what = "hs_suspend"
+        restrict_now = False
+        if state in ("SUSP_HS", "SUSP_FS"):
+            if goal == "suspend2" and n_susp == 1:
+                e = plan["susp1_exit"]
+                what = "resume" if e == "resume" else "reset"
+                restrict_now = e == "reset_restricted"
+            elif goal == "suspend2" and n_susp == 2:
+                what = plan["susp2_exit"]
+            elif goal == "handshake2":
+                what = "reset" if rng.random() < 0.85 else what
+            elif what == "reset":
+                restrict_now = rng.random() < 0.3
+            if what == "reset" and not restrict_now and not restricted and spent + hs_cost(v) > budget:
+                what = "resume"
+        spent += cost.get(what, _COST_CHEAP) if not (what == "reset" and (restrict_now or restricted)) else _COST_CHEAP
+
+        if state == "HS":
+            if what in ("hs_reset", "hs_suspend"):
+                ops.append(_seg(rng.choice([J_FS, K_FS]), rng.randint(1, 20)))
+                ops.append(_seg(SE0, T_3MS + rng.randint(0, 40)))
+                if what == "hs_suspend":
+                    ops.append({"op": "until", "event": "suspend", "ls": J_FS, "max": T_200US + 400, "after": rng.randint(5, 500)})
+                    state = "SUSP_HS"
+                    n_susp += 1
+                elif goal == "free" and faults_ok and rng.random() < 0.2:
+                    # a speed restriction arrives inside the 200 us discrimination window: no chirp may follow
+                    ops.append(_seg(SE0, rng.randint(1, 11000)))
+                    ops.append(_set("full_speed_only", 1))
+                    ops.append(_seg(SE0, T_200US + 400))
+                    ops.append(_seg(J_FS, rng.randint(10, 300)))
+                    restricted = True
+                    state = "FS"
+                    spent -= hs_cost(v)
+                else:
+                    state = _multi_handshake(rng, ops, v, start_ls=rng.choice([SE0, SE0, K_FS]), start_max=T_200US + 400)
+                    n_hs += 1
+            elif what == "vbus_bounce":
+                ops.append(_set("vbus_connected", 0))
+                ops.append(_seg(rng.choice([SE0, J_FS]), rng.randint(1, 500)))
+                ops.append(_set("vbus_connected", 1))
+                ops.append(_seg(J_FS, rng.randint(10, 300)))
+                state = "FS"
+            elif what == "restrict_pulse":
+                ops.append(_set("full_speed_only", 1))
+                ops.append(_seg(SE0, rng.randint(1, 30)))
+                restricted = rng.random() < 0.5
+                if not restricted:
+                    ops.append(_set("full_speed_only", 0))
+                ops.append(_seg(J_FS, rng.randint(5, 400)))
+                state = "FS"
+            else:
+                for _ in range(rng.randint(1, 3)):
+                    ops.append(_seg(SE0, rng.randint(10, 3000)))
+                    ops.append(_seg(rng.choice([J_FS, K_FS]), rng.randint(1, 40)))
+        elif state in ("SUSP_HS", "SUSP_FS"):
+            if faults_ok and rng.random() < 0.12:
+                ops.append(_set("vbus_connected", 0))                   # VBUS bounces while suspended
+                ops.append(_seg(J_FS, rng.randint(10, 300)))
+                ops.append(_set("vbus_connected", 1))
+                ops.append(_seg(J_FS, rng.randint(10, 300)))
+            if what == "resume":
+                ops.append(_seg(K_FS, rng.randint(2, 2000)))
+                if state == "SUSP_HS":
+                    ops.append(_seg(SE0, rng.randint(10, 2000)))
+                    state = "HS"
+                else:
+                    ops.append(_seg(J_FS, rng.randint(10, 600)))
+                    state = "FS"
+            else:
+                if restrict_now and not restricted:
+                    ops.append(_set("full_speed_only", 1))
+                    restricted = True
+                if restricted:
+                    ops.append(_seg(SE0, rng.randint(152, 400)))
+                    ops.append(_seg(J_FS, rng.randint(10, 600)))
+                    if rng.random() < 0.5:
+                        ops.append(_set("full_speed_only", 0))
+                        ops.append(_seg(J_FS, rng.randint(5, 100)))
+                        restricted = False
+                    state = "FS"
+                else:
+                    ops.append(_seg(SE0, rng.randint(152, 400)))
+                    state = _multi_handshake(rng, ops, v)
+                    n_hs += 1
+        else:   # FS
+            if what == "fs_reset":
+                if restricted and rng.random() < 0.8:
+                    ops.append(_set("full_speed_only", 0))
+                    ops.append(_seg(J_FS, rng.randint(5, 100)))
+                    restricted = False
+                    spent += hs_cost(v) - _COST_CHEAP
+                if restricted:
+                    ops.append(_seg(SE0, rng.randint(301, 900)))
+                    ops.append(_seg(J_FS, rng.randint(10, 300)))
+                else:
+                    ops.append(_seg(SE0, rng.randint(301, 900)))
+                    state = _multi_handshake(rng, ops, v)
+                    n_hs += 1
+            elif what == "fs_suspend":
+                ops.append({"op": "until", "event": "suspend", "ls": J_FS, "max": T_3MS + 40, "after": rng.randint(1, 2000)})
+                state = "SUSP_FS"
+                n_susp += 1
+            else:
+                for _ in range(rng.randint(1, 3)):
+                    ops.append(_seg(rng.choice([K_FS, SE0]), rng.randint(1, 140)))
+                    ops.append(_seg(J_FS, rng.randint(2, 1500)))
+    ops.append(_seg(J_FS if state in ("FS", "SUSP_FS", "SUSP_HS") else SE0, rng.randint(20, 400)))
+    ops.append(_seg(J_FS, rng.randint(4, 60)))
+    return {"engine": ENGINE, "config": {"template": "multi_" + goal, "pins": pins, "plan": plan}, "ops": ops}
+
+
 def gen(rng, tier, index):
+    if index % MULTI_EVERY == 0:
+        return _gen_multi(rng, tier, index)
     tmpl = rng.choice(["fs_bursts", "fs_bursts", "handshake", "handshake", "handshake", "timeout", "deadline", "deadline",
                        "fs_suspend", "fs_suspend", "hs_then_3ms", "hs_then_3ms", "hs_then_3ms"])
     low = tmpl in ("fs_bursts", "fs_suspend") and rng.random() < 0.3
@@ -399,6 +641,7 @@ def run(scn):
             t += 1
 
     # ---- C19.suspend_only_after_idle -------------------------------------------------------------------------
+    susp_kinds = []                # (start, end, "hs" | "fs_ls") of every admissible suspend, in order
     for a, b in susp_iv:
         if viol and viol.items[0]["cycle"] < a:
             break
@@ -417,6 +660,7 @@ def run(scn):
                      f"(idle line state {idle_code:02b}); path {kind}", path=kind, idle_cycles=min(n_idle, 999999))
         else:
             probes["hs_suspend" if kind == "hs" else "fs_suspend"] += 1
+            susp_kinds.append((a, b, kind))
 
     # ---- C19.leave_hs_on_restrict ------------------------------------------------------------------------------
     for a, b in hs_iv:
@@ -444,37 +688,67 @@ def run(scn):
             probes["restrict_during_hs_detect_window"] += 1
 
     # ---- C19.hs_only_after_handshake ------------------------------------------------------------------------------
+    # Every entry into HS operation is justified on its own, by the episode it belongs to:
+    #  (B) it is the exit of a suspend that was entered at high speed, or
+    #  (A) it ends the handshake of the MOST RECENT reset: the last device chirp before it was preceded by a reported bus reset,
+    #      the input shows >= 3 K-J pairs since that chirp ended, and nothing has ended that episode in between (no earlier HS
+    #      operation that used the same handshake, no suspend, no newer bus reset without a device chirp of its own).
+    n_hs_entries = 0
     for a, b in hs_iv:
         # (B) resume from a suspend that was entered at HS
         resumed = False
+        at_suspend_exit = None
         for sa, sb in susp_iv:
             if sb <= a <= sb + 3:
+                at_suspend_exit = (sa, sb)
                 h = last_hs_before(sa)
                 if h is not None and sa - h <= T_200US + 80:
                     resumed = True
         if resumed:
             probes["hs_resume_from_suspend"] += 1
+            n_hs_entries += 1
             continue
         # (A) reset -> device chirp -> three pairs
         chirps = [iv for iv in txv_iv if iv[1] <= a]
         resets = [iv for iv in reset_iv if iv[0] < a]
         reason = None
-        if not chirps:
+        if at_suspend_exit is not None:
+            sa, sb = at_suspend_exit
+            h = last_hs_before(sa)
+            reason = f"resume from a suspend that was not entered at high speed (suspended during [{sa},{sb}); the device last operated " \
+                     f"at HS {'never' if h is None else str(sa - h) + ' cycles'} before it) and no handshake since"
+        elif not chirps:
             reason = "no device chirp before"
         else:
             ca, cb = chirps[-1]
-            prev_hs_end = max([y for x, y in hs_iv if y <= ca], default=-1)
+            # the reset that started this episode: reported after the previous episode (HS operation or device chirp) ended
+            prev_hs_end = max([y for x, y in hs_iv if y <= ca] + [y for x, y in txv_iv if y <= ca], default=-1)
+            used = [(x, y) for x, y in hs_iv if cb <= x and y <= a]
+            newer = [ra for ra, rb in resets if ra >= cb]
+            susp_between = [(sa, sb) for sa, sb in susp_iv if cb <= sa < a]
             if not any(prev_hs_end <= ra < ca + 8 for ra, rb in resets):
                 reason = "no bus reset reported before the device chirp"
+            elif used:
+                reason = f"handshake already used: the last device chirp ended at cycle {cb}, HS operation based on it was entered at " \
+                         f"cycle {used[0][0]} and left at cycle {used[-1][1]}; no bus reset with a device chirp since"
+            elif newer:
+                reason = f"newer reset without a device chirp: bus reset reported at cycle {newer[-1]}, after the last device chirp ended at cycle {cb}"
+            elif susp_between:
+                reason = f"suspend since the last handshake: suspended during [{susp_between[-1][0]},{susp_between[-1][1]}) after the last " \
+                         f"device chirp ended at cycle {cb}; no bus reset with a device chirp since"
             else:
                 pairs = _count_pairs(ls, cb - 2, a)
                 if pairs < 3:
                     reason = f"only {pairs} host K-J pair(s) with both states >= 150 cycles between the end of the device chirp " \
                              f"(cycle {cb}) and cycle {a}"
         if reason:
-            viol.add("C19.hs_only_after_handshake", a, f"HS operation begins at cycle {a}: {reason}", reason=reason.split(" ")[0] + "_" + reason.split(" ")[1])
+            viol.add("C19.hs_only_after_handshake", a, f"HS operation begins at cycle {a}: {reason}", reason=reason.split(" ")[0] + "_" + reason.split(" ")[1],
+                     later_episode=bool(len(chirps) >= 2 or n_hs_entries >= 1))
         else:
             probes["hs_reached"] += 1
+            if len(chirps) >= 2:
+                probes["hs_after_later_handshake"] += 1
+        n_hs_entries += 1
 
     # ---- C19.fallback_when_no_host_chirp ---------------------------------------------------------------------------
     for ca, cb in txv_iv:
@@ -500,6 +774,26 @@ def run(scn):
                      line_change_at_deadline=bool(k_at), pairs=pairs)
         elif settled >= deadline - 2 and not _is_hs(outs.at(settled)):
             probes["fallback_timeout_reached"] += 1
+
+    # ---- multi-episode probes (how often a LATER episode differs from an earlier one) -------------------------------
+    first_hs = hs_iv[0][0] if hs_iv else None
+    for i, (ca, cb) in enumerate(txv_iv):
+        if i == 0 or outs.at(cb - 1)[3] != 2:
+            continue
+        probes["later_handshake"] += 1
+        if first_hs is not None and first_hs < ca and 1 <= _count_pairs(ls, cb - 2, min(n - 1, cb + T_2P5MS)) <= 2:
+            probes["later_handshake_fewer_pairs"] += 1
+    for i, (sa, sb, kind) in enumerate(susp_kinds):
+        by_reset = any(sb - 2 <= ra <= sb + 1 for ra, rb in reset_iv)
+        if sb < n and kind == "hs" and by_reset:
+            probes["hs_suspend_left_by_reset"] += 1
+        if i == 0:
+            continue
+        probes["later_suspend"] += 1
+        if kind != susp_kinds[i - 1][2]:
+            probes["suspend_speed_change"] += 1
+        if sb < n and kind == "fs_ls" and not by_reset and any(k2 == "hs" for _, _, k2 in susp_kinds[:i]):
+            probes["fs_resume_after_hs_suspend"] += 1
 
     # ---- probes from the stimulus ----------------------------------------------------------------------------------
     for i, (t, v) in enumerate(zip(ls.ts, ls.vs)):
@@ -528,7 +822,9 @@ def run(scn):
              "restrict_during_hs_detect_window": "speed_restrict_in_detect_window", "restrict_mid_handshake": "speed_restrict_mid_handshake"}
     faults = {names.get(k, k): probes[k] for k in fault_keys if probes[k]}
     outcome = sorted(k for k in ("hs_reached", "hs_resume_from_suspend", "fallback_timeout_reached", "hs_suspend", "hs_reset",
-                                 "fs_suspend", "reset_from_suspend", "reset_fs_active") if probes[k])
+                                 "fs_suspend", "reset_from_suspend", "reset_fs_active", "later_handshake_fewer_pairs",
+                                 "hs_after_later_handshake", "suspend_speed_change", "hs_suspend_left_by_reset",
+                                 "fs_resume_after_hs_suspend") if probes[k])
     sig = hashlib.blake2b(repr((scn["config"]["template"], sorted(log.fsm_vectors), sorted(faults), outcome)).encode(),
                           digest_size=8).hexdigest()
     return {"violations": viol.items, "cycles": log.cycles, "faults": faults, "probes": probes, "sig": sig,
